@@ -25,7 +25,7 @@ def poison_for(rng, prog, idx):
             for key in ('a', 'b', 'm', 'c', 'bus'):
                 if key in e:
                     e[key] = sh(e[key])
-            for key in ('ins', 'chans'):
+            for key in ('ins', 'chans', 'args'):
                 if key in e:
                     e[key] = [sh(a) for a in e[key]]
     elif kind == 'check':
@@ -85,7 +85,8 @@ class Check(c01.Check):
             res, err = common.run_impl('c20', 'run', {'cases': cases, 'mode': mode, 'threads': threads,
                                                       'thread_cases': 200 if self.tier == 'quick' else 1500,
                                                       'thread_seconds': 6 if self.tier == 'quick' else 40,
-                                                      'delay_cases': 10 if self.tier == 'quick' else 60},
+                                                      'delay_cases': 10 if self.tier == 'quick' else 60,
+                                                      'slow_seconds': 2.6 if self.tier == 'quick' else 8},
                                        timeout=3000, extra_env={'PYTHONHASHSEED': hs})
             if res is None:
                 self.notes.append(f'{mode}/{hs}: {err}')
@@ -109,6 +110,9 @@ class Check(c01.Check):
                          'probe_digests': {k: [x for x in (runs[k][0].get('args_probe') or []) if x.startswith('DIGESTS')]
                                            for k in keys} if i == 0 else None,
                          'barrier': {k: runs[k][0].get('barrier_current_none') for k in keys} if i == 0 else None,
+                         'slow_build': {k: runs[k][0].get('slow_build') for k in keys} if i == 0 else None,
+                         'later_build_error': {k: runs[k][0].get('later_build_error') for k in keys
+                                               if runs[k][0].get('later_build_error')} if i == 0 else None,
                          'hang': {k: True for k in keys if runs[k][i].get('hang')},
                          'residue_after_threads': [runs[k][0].get('residue_after_threads') for k in keys if runs[k]]})
         self._impl_outs = outs
@@ -132,6 +136,12 @@ class Check(c01.Check):
         if len({tuple(v) for v in dg.values()}) > 1:
             return {'what': f'definitions with rates / five variants built under different hash seeds, modes or after other '
                             f'builds differ: {dg}', 'signature': 'c20:probe-nondeterministic'}
+        for k, e in (io.get('later_build_error') or {}).items():
+            return {'what': f'{k}: after the earlier builds of this run a plain definition (one control or two oscillators and '
+                            f'an output) no longer builds: {e}', 'signature': 'c20:later-build-failed'}
+        for k, probs in (io.get('slow_build') or {}).items():
+            if probs:
+                return {'what': f'{k}: {probs[0]}', 'signature': 'c20:slow-build-not-isolated'}
         for k, smp in (io.get('barrier') or {}).items():
             if smp and not all(smp):
                 return {'what': f'{k}: with all builder threads between two builds (nothing being built) the global current '
